@@ -231,9 +231,15 @@ pub fn run_shard(
     let mut states: BTreeSet<u64> = BTreeSet::new();
     let mut i = from;
     let mut done = 0;
+    // the shard leaves a note about the run it is executing: if the process dies (abort, stack
+    // overflow, kill) the parent can say which run it was
+    let progress = std::env::var_os("HQSIM_PROGRESS_FILE").map(std::path::PathBuf::from);
     while done < n {
         let profile = cfg.profiles[(i % cfg.profiles.len() as u64) as usize];
         let seed = run_seed_for(verif_seed, cfg.id, profile, i);
+        if let Some(p) = &progress {
+            let _ = std::fs::write(p, format!("index={i} seed={seed} profile={}", profile.name()));
+        }
         let r = run_seed(
             seed,
             profile,
@@ -418,6 +424,7 @@ pub fn check_cluster(args: &CheckArgs) -> i32 {
             .arg(jobs.to_string())
             .arg("--out")
             .arg(&out)
+            .env("HQSIM_PROGRESS_FILE", out.with_extension("progress"))
             .spawn();
         match child {
             Ok(c) => children.push((c, out)),
@@ -434,8 +441,13 @@ pub fn check_cluster(args: &CheckArgs) -> i32 {
     let mut states: BTreeSet<u64> = BTreeSet::new();
     for (mut c, out) in children {
         let status = c.wait();
-        if !status.map(|s| s.success()).unwrap_or(false) {
-            eprintln!("HARNESS-ERROR: a shard process failed ({})", out.display());
+        if !status.as_ref().map(|s| s.success()).unwrap_or(false) {
+            let at = std::fs::read_to_string(out.with_extension("progress")).unwrap_or_default();
+            eprintln!(
+                "HARNESS-ERROR: a shard process failed ({}): {:?}; it was executing run {at} (reproduce: hqsim one --seed <seed> --profile <profile> -v)",
+                out.display(),
+                status
+            );
             let _ = std::fs::remove_dir_all(&scratch);
             return 2;
         }
